@@ -369,7 +369,7 @@ def uploads_models(chk):
     thorough = chk.tier == "thorough"
     rng = chk.rng
     cfg = "MC_Uploads_full.cfg" if thorough else "MC_Uploads.cfg"
-    r, hists, nstates = dump_hists("Uploads", cfg, rng, 10000 if thorough else 2500, workers=8, timeout=1500 if thorough else 400, heap="6g")
+    r, hists, nstates = dump_hists("Uploads", cfg, rng, 10000 if thorough else 1800, workers=8, timeout=1500 if thorough else 400, heap="6g")
     chk.add_model("Uploads design=>contract (%s: 2 peers x 2 chunks, limits {0,1,2}^2, timeout 2, relative clocks)" % cfg, r,
                   "invariants TypeOK C23_Limits C23_Nak C23_SlotsReleased D_CounterIsMapSize")
     for cfgname, inv in (("dev_dupcounts", "C23_SlotsReleased"), ("reach_dupstart", "Reach_DupStartWhileActive"), ("reach_queued", "Reach_QueuedBehindLimit"),
@@ -386,12 +386,12 @@ def uploads_traces(chk, hists):
     thorough = chk.tier == "thorough"
     rng = chk.rng
     ext = []
-    for h in rng.sample(hists, min(len(hists), 800 if thorough else 200)):
+    for h in rng.sample(hists, min(len(hists), 800 if thorough else 150)):
         base = upload_script(h, settle=False)
         for a in UPLOAD_EXT:
             ext.append(base + [a, "tick", "adv ms=%d" % ((UPLOAD["timeout"] + 1) * TICK_MS), "tick"])
     res = run_and_validate(chk, UPLOAD, [("tlc-state-cover", [upload_script(h) for h in hists]), ("tlc-transition-cover", ext),
-                                         ("random", random_upload_behaviours(rng, 3000 if thorough else 600))])
+                                         ("random", random_upload_behaviours(rng, 3000 if thorough else 500))])
     stats = [res["stats"]]
     if not chk.viol:
         need(stats, ["sends", "dupsends", "nakdue", "releasedue", "atlimit"], "upload")
@@ -411,7 +411,7 @@ def fetches_models(chk):
     thorough = chk.tier == "thorough"
     rng = chk.rng
     cfg = "MC_Fetches_full.cfg" if thorough else "MC_Fetches.cfg"
-    r, hists, nstates = dump_hists("Fetches", cfg, rng, 10000 if thorough else 2500, workers=8, timeout=1500 if thorough else 400, heap="6g")
+    r, hists, nstates = dump_hists("Fetches", cfg, rng, 10000 if thorough else 1800, workers=8, timeout=1500 if thorough else 400, heap="6g")
     chk.add_model("Fetches design=>contract (%s: 2 chunks x 2 peers, limit {0,1,2}, attempt limit {1,3}, back-off 1..4, relative clocks, bounded depth)" % cfg, r,
                   "invariants TypeOK C24_Limit C24_InflightZero C24_Backoff C24_Dropped D_CounterIsInflight")
     for cfgname, inv in (("dev_reannounceleak", "C24_InflightZero"), ("reach_reannounce", "Reach_ReannounceInFlight"), ("reach_exhausted", "Reach_Exhausted"),
@@ -427,12 +427,12 @@ def fetches_traces(chk, hists):
     rng = chk.rng
     life = LIFE[chk.tier]
     ext = []
-    for h in rng.sample(hists, min(len(hists), 800 if thorough else 200)):
+    for h in rng.sample(hists, min(len(hists), 800 if thorough else 150)):
         base = fetch_script(h, life, settle=False)
         for a in FETCH_EXT:
             ext.append(base + [a, "tick", "adv ms=%d" % ((FETCH["succ"] + 1) * TICK_MS), "tick"])
     res = run_and_validate(chk, FETCH, [("tlc-state-cover", [fetch_script(h, life) for h in hists]), ("tlc-transition-cover", ext),
-                                        ("random", random_fetch_behaviours(rng, 3000 if thorough else 600))])
+                                        ("random", random_fetch_behaviours(rng, 3000 if thorough else 500))])
     stats = [res["stats"]]
     if not chk.viol:
         need(stats, ["requests", "failedsends", "reannounce_inflight", "arrivals", "dropdue", "zerodue", "atlimit", "doubled", "capped"], "fetch")
